@@ -6,7 +6,7 @@ from typing import Any, Dict, List
 from jmon import envs as E
 
 STEP_CAP = {"quick": 60, "thorough": 150}
-ENV_STEP_CAP = {"PacMan": {"quick": 120, "thorough": 400}, "Snake": {"quick": 80, "thorough": 300}}
+ENV_STEP_CAP = {"PacMan": {"quick": 160, "thorough": 400}, "Snake": {"quick": 80, "thorough": 300}}
 
 
 def step_cap(env: str, cfg: Dict[str, Any], tier: str) -> int:
@@ -35,14 +35,17 @@ DEEP_POLICY = {
 
 def deep_episodes(env: str, cfg: Dict[str, Any], tier: str, extra: Dict[str, Any] = None) -> List[Any]:
     """[(policy, max_steps)] of the long episodes a shard adds to its ordinary workload (`extra`: the model's policies)."""
+    from jmon.rollout import POLICIES
+
+    if "deep" in cfg:  # a configuration may ask for its own long run on both tiers: ["policy", max_steps]
+        nm, c = cfg["deep"]
+        return [((extra or {}).get(nm) or (nm if nm in POLICIES else "survive"), int(c))]
     if env not in DEEP_CAP:
         return []
     L = cfg.get("time_limit")
     cap = DEEP_CAP[env] if L is None else min(DEEP_CAP[env], L + 1)
     if cap <= step_cap(env, cfg, tier):
         return []
-    from jmon.rollout import POLICIES
-
     names = DEEP_POLICY[env]
     if tier == "quick":
         if cfg.get("id") != "default":
